@@ -62,8 +62,11 @@ def gen_cases(tier, seed):
         rho = float(10 ** rng.uniform(1, 3.2))
         ph = float(rng.uniform(0, 2 * np.pi))
         b = [a[0] + rho * np.cos(ph), a[1] + rho * np.sin(ph), float(rng.uniform(max(zlo, -400), -1))]
-        if fam == "uniform" and rng.random() < 0.12:
+        r_lvl = rng.random()
+        if fam == "uniform" and r_lvl < 0.12:
             b[2] = a[2]          # exactly equal depths: the direct path is horizontal
+        elif fam in ("uniform", "layered-lowtop") and r_lvl < 0.3:
+            b[2] = min(-0.5, a[2] + float(rng.choice([-1, 1])) * float(rng.uniform(0.01, 0.95)))      # nearly level: depths less than one integration step apart
         if fam == "uniform" and rng.random() < 0.3:
             # whole-number endpoints handed over as Python ints / an int array
             a = [int(round(x)) for x in a]
